@@ -12,12 +12,29 @@
 #define QTMODEL_BYTES_H
 #include "base.h"
 #define QBA_MAX 65556
+#ifndef QBA_OWNED
 typedef struct QByteArray { int n; const char *src; int off; int vlen; bool patched; char p2, p3; } QByteArray;
 #define QBA_AT(b,i) ((i) < (b)->vlen ? (((b)->patched && (i) == 2) ? (b)->p2 : ((b)->patched && (i) == 3) ? (b)->p3 : (b)->src[(b)->off + (i)]) : (((b)->patched && (i) == 2) ? (b)->p2 : ((b)->patched && (i) == 3) ? (b)->p3 : (char)0))
+#define QBA_OWN_INIT(b)
+#define QBA_NOT_OWNED(b) 1
+#else
+/* -DQBA_OWNED: small arrays built byte by byte (HMAC pads, the 16-byte XOR pad of address attributes) additionally carry
+   their own storage of QBA_OWNED bytes; an owned array is never patched and never a slice. */
+typedef struct QByteArray { int n; const char *src; int off; int vlen; bool patched; char p2, p3; bool owned; char own[QBA_OWNED]; } QByteArray;
+#define QBA_SLICE_AT(b,i) ((i) < (b)->vlen ? (((b)->patched && (i) == 2) ? (b)->p2 : ((b)->patched && (i) == 3) ? (b)->p3 : (b)->src[(b)->off + (i)]) : (((b)->patched && (i) == 2) ? (b)->p2 : ((b)->patched && (i) == 3) ? (b)->p3 : (char)0))
+#define QBA_AT(b,i) ((b)->owned ? (b)->own[i] : QBA_SLICE_AT(b,i))
+#define QBA_OWN_INIT(b) ((b)->owned = false)
+#define QBA_NOT_OWNED(b) (!(b)->owned)
+/* operator[] on a non-const array yields a QByteRef; read through it: the byte, or 0 when i >= size (Qt 5.15 QByteRef::operator char) */
+#define QBA_REF_READ(b,i) (((i) >= 0 && (i) < (b)->n) ? QBA_AT(b,i) : (char)0)
+static inline void QByteArray_append_char(struct QByteArray *b, char c);
+static inline void QByteArray_append(struct QByteArray *b, const struct QByteArray *x);
+static inline void QByteArray_concat(struct QByteArray *r, const struct QByteArray *a, const struct QByteArray *b);
+#endif
 static inline int  QByteArray_size(const QByteArray *b) { return b->n; }
 static inline bool QByteArray_isEmpty(const QByteArray *b) { return b->n == 0; }
-static inline void QByteArray_ctor(QByteArray *b) { b->n = 0; b->src = 0; b->off = 0; b->vlen = 0; b->patched = false; b->p2 = 0; b->p3 = 0; }
-static inline void QByteArray_ctor_fill(QByteArray *b, int n, char ch) { MODEL_LIMIT(ch == 0, "QByteArray(n, ch) with ch != 0"); b->n = n < 0 ? 0 : n; b->src = 0; b->off = 0; b->vlen = 0; b->patched = false; b->p2 = 0; b->p3 = 0; }
+static inline void QByteArray_ctor(QByteArray *b) { b->n = 0; b->src = 0; b->off = 0; b->vlen = 0; b->patched = false; b->p2 = 0; b->p3 = 0; QBA_OWN_INIT(b); }
+static inline void QByteArray_ctor_fill(QByteArray *b, int n, char ch) { MODEL_LIMIT(ch == 0, "QByteArray(n, ch) with ch != 0"); b->n = n < 0 ? 0 : n; b->src = 0; b->off = 0; b->vlen = 0; b->patched = false; b->p2 = 0; b->p3 = 0; QBA_OWN_INIT(b); }
 /* resize: only ever followed by readRawData(x.data(), x.size()) in the verified code, which redefines the content;
    bytes beyond the old size are unspecified in Qt, here they read as zero until overwritten (content is never inspected before). */
 static inline void QByteArray_resize(QByteArray *b, int n) { b->n = n < 0 ? 0 : n; if (b->vlen > b->n) b->vlen = b->n; }
@@ -35,10 +52,34 @@ static inline int  QDataStream_readInto(QDataStream *s, QByteArray *x, int len) 
   MODEL_LIMIT(len == x->n, "readRawData(x.data(), n) with n != x.size()");
   MODEL_LIMIT(!s->ba->patched, "readRawData from a patched array");
   int a = s->ba->n - s->pos; int k = len < a ? len : a; int v = s->ba->vlen - s->pos; if (v < 0) v = 0; if (k < v) v = k;
-  x->src = s->ba->src; x->off = s->ba->off + s->pos; x->vlen = v; x->patched = false; s->pos += k; return k; }
+  x->src = s->ba->src; x->off = s->ba->off + s->pos; x->vlen = v; x->patched = false; QBA_OWN_INIT(x); s->pos += k; return k; }
 /* write stream on a QByteArray: the only write the slice model represents is a 16-bit big-endian store at offset 2 */
 static inline void QDataStream_ctor_rw(QDataStream *s, QByteArray *b, int mode) { s->ba = b; s->wba = b; s->pos = 0; }
 static inline bool QDataStream_device_seek(QDataStream *s, long pos) { MODEL_LIMIT(s->wba != 0 && pos >= 0 && pos <= s->wba->n, "seek outside the array"); s->pos = (int)pos; return true; }
 static inline void QDataStream_wr_i16_patch(QDataStream *s, qint16 v) { MODEL_LIMIT(s->wba != 0 && s->pos == 2 && s->wba->n >= 4, "slice model: 16-bit store at offset 2 only");
   s->wba->patched = true; s->wba->p2 = (char)(unsigned char)(((quint16)v) >> 8); s->wba->p3 = (char)(unsigned char)(((quint16)v) & 0xff); s->pos += 2; }
+#ifdef QBA_OWNED
+/* ---- owned small arrays (only with -DQBA_OWNED=<capacity>) ---- */
+static inline void QByteArray_append_char(QByteArray *b, char c) {
+  MODEL_LIMIT(b->owned || b->n == 0, "append to a slice"); MODEL_LIMIT(b->n < QBA_OWNED, "owned array capacity");
+  b->owned = true; b->patched = false; b->own[b->n] = c; b->n += 1; }
+/* append x (at most 32 bytes: digests, transaction ids) to an owned / empty array; fully unrolled, no loop */
+#define QBA_APP1(k) if ((k) < x->n) { MODEL_LIMIT(b->n < QBA_OWNED, "owned array capacity"); b->own[b->n] = QBA_AT(x, (k)); b->n += 1; }
+static inline void QByteArray_append(QByteArray *b, const QByteArray *x) {
+  MODEL_LIMIT(b->owned || b->n == 0, "append to a slice"); MODEL_LIMIT(x->n <= 32, "appended array longer than 32 bytes");
+  b->owned = true; b->patched = false;
+  QBA_APP1(0) QBA_APP1(1) QBA_APP1(2) QBA_APP1(3) QBA_APP1(4) QBA_APP1(5) QBA_APP1(6) QBA_APP1(7) QBA_APP1(8) QBA_APP1(9) QBA_APP1(10) QBA_APP1(11) QBA_APP1(12) QBA_APP1(13) QBA_APP1(14) QBA_APP1(15)
+  QBA_APP1(16) QBA_APP1(17) QBA_APP1(18) QBA_APP1(19) QBA_APP1(20) QBA_APP1(21) QBA_APP1(22) QBA_APP1(23) QBA_APP1(24) QBA_APP1(25) QBA_APP1(26) QBA_APP1(27) QBA_APP1(28) QBA_APP1(29) QBA_APP1(30) QBA_APP1(31) }
+/* a + b where b is all zero (QByteArray(n, 0)): the slice a with a longer zero tail */
+static inline void QByteArray_concat(QByteArray *r, const QByteArray *a, const QByteArray *b) {
+  MODEL_LIMIT(!b->owned && b->vlen == 0 && !b->patched, "operator+ with a right operand that is not zero-filled");
+  MODEL_LIMIT(!a->owned && !a->patched, "operator+ with an owned/patched left operand");
+  *r = *a; MODEL_LIMIT(a->n <= QBA_MAX && b->n <= QBA_MAX, "size"); r->n = a->n + b->n; }
+/* QDataStream(&x, WriteOnly) << quint32 on an empty local array: four big-endian bytes */
+static inline void QDataStream_wr_u32_own(QDataStream *s, quint32 v) { MODEL_LIMIT(s->wba != 0 && s->pos == s->wba->n, "write not at the end");
+  QByteArray_append_char(s->wba, (char)(unsigned char)(v >> 24)); QByteArray_append_char(s->wba, (char)(unsigned char)(v >> 16));
+  QByteArray_append_char(s->wba, (char)(unsigned char)(v >> 8)); QByteArray_append_char(s->wba, (char)(unsigned char)v); s->pos += 4; }
+#endif
+/* a plain array: its n bytes are bytes [0,n) of src */
+#define QBA_PLAIN(b, maxn) (0 <= (b)->n && (b)->n <= (maxn) && (b)->vlen == (b)->n && (b)->off == 0 && !(b)->patched && QBA_NOT_OWNED(b))
 #endif
